@@ -22,7 +22,8 @@ import vlib
 
 GROUP = 'ex'
 TRUSTED = ['tools/props/c06.py RefEd: the Python reference line editor (property text + the conventions of design.d/C06.md)',
-           'the four shell filters tr/sort/cat/sed of the sandbox (/bin/sh) behave as their Python/OCaml re-implementations']
+           'the four shell filters tr/sort/cat/sed of the sandbox (/bin/sh) behave as their Python/OCaml re-implementations',
+           'tools/props/c06.py r_prog / cmdtab: the table line text -> commands through which the reference reads the lines of a register is the inverse of the renderer']
 
 MARKS = 'abc'
 FILTERS = ['tr a-z A-Z', 'sort', 'cat', 'sed d']
